@@ -169,7 +169,7 @@ Theorem C17_live_loop_offers : forall n w t0 ls s, (n = 0%nat -> w = 0) ->
 Proof. exact live_loop_offers. Qed.
 Print Assumptions C17_live_loop_offers.
 
-(** (R4), (R5) the code before the fix 2cd5212 read len(r.ring) and r.window without the mutex
+(** (R4), (R5) the code before the fix d913d34 read len(r.ring) and r.window without the mutex
     and indexed the ring afterwards ([pstep]): a SetMaxEvents(0) in between — a call the API
     accepts — made the loop panic while holding the mutex (no admission ever again, every
     later setter call blocks for ever); SetMaxEvents(2), SetWindow(100) between the two reads
